@@ -141,7 +141,11 @@ impl Config {
             frames: j.gu("frames") as usize,
             alloc_all: j.get("alloc_all").and_then(J::b).unwrap_or(false),
             kind: ClassKind::from_name(j.gs("classing")),
-            slots: j.garr("slots").iter().map(|x| x.u().unwrap() as usize).collect(),
+            slots: j
+                .garr("slots")
+                .iter()
+                .map(|x| x.u().unwrap() as usize)
+                .collect(),
         }
     }
 }
@@ -207,7 +211,9 @@ impl Outcome {
             Outcome::GetOk { frame, class } => J::obj().set("ok", *frame).set("class", *class),
             Outcome::Ok => J::from("ok"),
             Outcome::Err(e) => J::from(format!("err:{e:?}")),
-            Outcome::Panic { msg, loc } => J::obj().set("panic", msg.clone()).set("at", loc.clone()),
+            Outcome::Panic { msg, loc } => {
+                J::obj().set("panic", msg.clone()).set("at", loc.clone())
+            }
             Outcome::Aborted => J::from("aborted"),
         }
     }
@@ -316,7 +322,9 @@ impl Call {
                 ..
             } => {
                 *order <= TREE_ORDER
-                    && frame.checked_add(1 << order).is_some_and(|e| e <= cfg.frames)
+                    && frame
+                        .checked_add(1 << order)
+                        .is_some_and(|e| e <= cfg.frames)
                     && frame % (1 << order) == 0
                     && cfg.class_ok(*class)
             }
@@ -383,7 +391,11 @@ pub fn panic_signature(msg: &str, loc: &str) -> String {
             }
             last_hash = true;
         } else {
-            m.push(if c.is_ascii_alphanumeric() || c == '#' { c } else { '_' });
+            m.push(if c.is_ascii_alphanumeric() || c == '#' {
+                c
+            } else {
+                '_'
+            });
             last_hash = false;
         }
     }
@@ -495,7 +507,11 @@ impl Arenas {
 }
 
 /// Create an allocator over the given buffers; panics are converted.
-pub fn create(cfg: &Config, init: Init, bufs: Bufs) -> Result<llfree::Result<LLFree<'static>>, Outcome> {
+pub fn create(
+    cfg: &Config,
+    init: Init,
+    bufs: Bufs,
+) -> Result<llfree::Result<LLFree<'static>>, Outcome> {
     let classing = cfg.classing();
     guarded(move || {
         LLFree::new(
